@@ -75,6 +75,8 @@ def main():
                 if write:
                     mp = d + '/meta.json'
                     meta = json.load(open(mp)) if os.path.exists(mp) else {}
+                    if 'first_run' not in meta and prop in meta.get('checks', {}) and prop == meta.get('property'):
+                        meta['first_run'] = dict(exit=meta['checks'][prop].get('exit'), rules=meta['checks'][prop].get('rules', []))   # verdict when the change arrived
                     meta.setdefault('checks', {})[prop] = dict(exit=c, rules=sorted({r[0] for r in rules}))
                     if want == 0: meta['silent'] = all(v.get('exit') == 0 for v in meta['checks'].values())
                     json.dump(meta, open(mp, 'w'), indent=1)
